@@ -174,7 +174,7 @@ Section Generic.
   Fixpoint mism_from (n : N) (cases : list A) : list N :=
     match cases with [] => [] | c :: r => if f c then mism_from (N.succ n) r else n :: mism_from (N.succ n) r end.
 End Generic.
-Definition mismatches := mism_from (fun c => AnaCross.ana_cross (c5_prog c) (c5_ana c) && chk_model c) 0%N.
+Definition mismatches := mism_from (fun c => AnaCross.ana_cross_e (c5_prog c) (c5_enums c) (c5_ana c) && chk_model c) 0%N.
 Definition prop_failures := mism_from chk_prop 0%N.
 
 (** for the replays: the functions the model and the file disagree on, and the defective statements *)
